@@ -25,6 +25,7 @@ import (
 	metav1 "k8s.io/apimachinery/pkg/apis/meta/v1"
 	"k8s.io/apimachinery/pkg/runtime"
 	"k8s.io/apimachinery/pkg/types"
+	"sigs.k8s.io/controller-runtime/pkg/client"
 	"sigs.k8s.io/controller-runtime/pkg/client/fake"
 	gw "sigs.k8s.io/gateway-api/apis/v1beta1"
 )
@@ -357,22 +358,24 @@ func errEnum(err error) string {
 }
 
 // gwSeq: EnsureRoutes per step (Rep times each), then Finalise (fin times), on a fake client.
-func gwSeq(c *Ctx, conf gateway.Config, rules []gw.HTTPRouteRule, exists bool, steps []gwStep, fin int) {
+func gwSeq(c *Ctx, conf gateway.Config, rules []gw.HTTPRouteRule, exists bool, steps []gwStep, fin int, conflictAt int) {
 	const ns, name = "default", "route"
 	b := fake.NewClientBuilder().WithScheme(gwScheme)
 	if exists {
 		b = b.WithObjects(&gw.HTTPRoute{ObjectMeta: metav1.ObjectMeta{Namespace: ns, Name: name},
 			Spec: gw.HTTPRouteSpec{Rules: copyRules(rules)}})
 	}
-	cli := b.Build()
+	// conflictAt > 0: the conflictAt-th write of the whole sequence meets a 409 Conflict once (a concurrent writer touched the
+	// HTTPRoute); the provider retries on conflict, so the outcome must be the one of the undisturbed sequence - the model
+	// has no such parameter, the comparison and the oracles judge the implementation's output
+	lcli := NewLogClient(b.Build())
+	lcli.ConflictAtWrite = conflictAt
+	var cli client.Client = lcli
 	routeName := name
 	conf.Namespace = ns
 	conf.Key = "verif"
 	conf.TrafficConf = &v1beta1.GatewayTrafficRouting{HTTPRouteName: &routeName}
 	ctl, err := gateway.NewGatewayTrafficRouting(cli, conf)
-	if err != nil {
-		panic(err)
-	}
 	read := func() interface{} {
 		var r gw.HTTPRoute
 		if err := cli.Get(context.TODO(), types.NamespacedName{Namespace: ns, Name: name}, &r); err != nil {
@@ -398,6 +401,24 @@ func gwSeq(c *Ctx, conf gateway.Config, rules []gw.HTTPRouteRule, exists bool, s
 	if exists {
 		inRules = gwRules(rules)
 	}
+	if err != nil {
+		// the constructor refuses the configuration (canary Service name = stable Service name): no provider, no call
+		inSteps := []interface{}{}
+		for _, s := range steps {
+			var tr interface{}
+			if s.Traffic != nil {
+				if n, ok := pctOf(*s.Traffic); ok {
+					tr = J{"p": n}
+				} else {
+					tr = J{"s": *s.Traffic}
+				}
+			}
+			inSteps = append(inSteps, J{"traffic": tr, "matches": gwUMatches(s.Matches), "rep": s.Rep})
+		}
+		c.Emit("seq", J{"conf": gwConfJ(conf), "rules": inRules, "steps": inSteps, "fin": fin, "conflictAt": conflictAt, "conflictHit": false},
+			J{"refused": true})
+		return
+	}
 	inSteps := []interface{}{}
 	implSteps := []interface{}{}
 	for _, s := range steps {
@@ -421,7 +442,7 @@ func gwSeq(c *Ctx, conf gateway.Config, rules []gw.HTTPRouteRule, exists bool, s
 	for i := 0; i < fin; i++ {
 		fins = append(fins, call(func() (bool, error) { return ctl.Finalise(context.TODO()) }))
 	}
-	c.Emit("seq", J{"conf": gwConfJ(conf), "rules": inRules, "steps": inSteps, "fin": fin},
+	c.Emit("seq", J{"conf": gwConfJ(conf), "rules": inRules, "steps": inSteps, "fin": fin, "conflictAt": conflictAt, "conflictHit": lcli.FaultHit != ""},
 		J{"steps": implSteps, "fin": fins})
 }
 
@@ -704,7 +725,23 @@ func runGateway(c *Ctx) {
 		for k := []int{0, 1, 1, 2, 2, 3, 3, 4, 6}[g.c.Rng.Intn(9)]; k > 0; k-- {
 			steps = append(steps, g.step())
 		}
-		gwSeq(c, g.conf, orig, !g.chance(3), steps, []int{0, 1, 1, 1, 2, 2}[g.c.Rng.Intn(6)])
+		nfin := []int{0, 1, 1, 1, 2, 2}[g.c.Rng.Intn(6)]
+		exists := !g.chance(3)
+		gwSeq(c, g.conf, orig, exists, steps, nfin, 0)
+		// the same sequence with one write meeting a conflict: biased to the last writes (the finalising ones)
+		if exists && g.chance(50) {
+			tot := nfin
+			for _, s := range steps {
+				tot += s.Rep
+			}
+			if tot > 0 {
+				k := 1 + g.c.Rng.Intn(tot)
+				if g.chance(50) && nfin > 0 {
+					k = tot - g.c.Rng.Intn(nfin)
+				}
+				gwSeq(c, g.conf, orig, exists, steps, nfin, k)
+			}
+		}
 	}
 }
 
@@ -735,7 +772,8 @@ func replayGateway(c *Ctx, op string, raw json.RawMessage) {
 				Matches []cMatch               `json:"matches"`
 				Rep     int                    `json:"rep"`
 			} `json:"steps"`
-			Fin int `json:"fin"`
+			Fin        int `json:"fin"`
+			ConflictAt int `json:"conflictAt"`
 		}
 		if err := json.Unmarshal(raw, &in); err != nil {
 			panic(err)
@@ -757,6 +795,6 @@ func replayGateway(c *Ctx, op string, raw json.RawMessage) {
 			rules = realRules(*in.Rules)
 		}
 		gwSeq(c, gateway.Config{StableService: in.Conf.Stable, CanaryService: in.Conf.Canary},
-			rules, in.Rules != nil, steps, in.Fin)
+			rules, in.Rules != nil, steps, in.Fin, in.ConflictAt)
 	}
 }
